@@ -99,6 +99,13 @@ def run_case(case):
         for a in steps:
             for st_ in a:
                 st_["transport_timeout_s"] = tt
+    if rng.random() < 0.2:
+        # one actor's first stream is refused by the device (CLSE instead of OKAY): that open fails after its (tiny) read timeout while the others go on opening
+        a = rng.randrange(nact)
+        steps[a].insert(0, dict(c06.sh("refused%d" % a, 1), refused=True, read_timeout_s=rng.choice([2e-5, 1e-4]), transport_timeout_s=0))
+        refused_sched = True
+    else:
+        refused_sched = False
     reconnect = case["impl"] == "sync" and rng.random() < 0.15
     if reconnect:
         # one more actor closes and re-opens the connection in the middle of the others' opens (their operations may fail; ids may not collide)
@@ -108,6 +115,7 @@ def run_case(case):
     strat = sched.RandomWalk(case["seed"], stay=rng.choice([0.2, 0.5]), line_prob=lp) if rng.random() < 0.7 else sched.PCT(case["seed"], nact, depth=rng.choice([1, 2, 3]), horizon=80, line_prob=lp)
     res = run_opens(case["impl"], steps, strat, dims, lp > 0, tolerate_errors=reconnect)
     stats["reconnecting_schedules"] = 1 if reconnect else 0
+    stats["schedules_with_refused_open"] = 1 if refused_sched else 0
     stats["schedules_with_transport_timeout"] = 1 if tt is not None else 0
     stats["schedules"] += 1
     stats["opens"] += res["opens"]
